@@ -308,6 +308,10 @@ where
 fn pivots<R>(a: &SpMat<R>, piv_type: PivotType, pivot_cond: PivotCondition) -> (PermOwned, PermOwned, usize) 
 where R: Ring, for<'x> &'x R: RingOps<R> {
     let pivs = find_pivots(a, piv_type, pivot_cond);
+
+    #[cfg(yui_verif)]
+    yui_matrix::sparse::verif_hook::observe_pivots(&pivs);
+
     let (p, q) = perms_by_pivots(a, &pivs);
     let r = pivs.len();
     (p, q, r)
